@@ -84,6 +84,24 @@ class ModuleInfo:
         for n in ast.walk(self.tree):
             if isinstance(n, ast.Global):
                 self.mutated_globals.update(n.names)
+        # a module-level container that some function mutates in place (item store, augmented assignment, a mutating method) is state
+        MUT = {"append", "extend", "insert", "remove", "pop", "clear", "sort", "reverse", "add", "discard", "update", "setdefault", "popitem",
+               "__setitem__", "__delitem__", "intersection_update", "difference_update", "symmetric_difference_update"}
+        module_names = set(self.module_assigns)
+        for fn in [n for n in ast.walk(self.tree) if isinstance(n, (ast.FunctionDef, ast.AsyncFunctionDef))]:
+            local = {a.arg for a in fn.args.args + fn.args.kwonlyargs}
+            for n in ast.walk(fn):
+                tgt = None
+                if isinstance(n, (ast.Assign, ast.AugAssign, ast.Delete)):
+                    tgts = n.targets if isinstance(n, (ast.Assign, ast.Delete)) else [n.target]
+                    for t in tgts:
+                        if isinstance(t, ast.Subscript) and isinstance(t.value, ast.Name):
+                            tgt = t.value.id
+                        if tgt and tgt in module_names and tgt not in local:
+                            self.mutated_globals.add(tgt)
+                elif isinstance(n, ast.Call) and isinstance(n.func, ast.Attribute) and n.func.attr in MUT and isinstance(n.func.value, ast.Name):
+                    if n.func.value.id in module_names and n.func.value.id not in local:
+                        self.mutated_globals.add(n.func.value.id)
         for name in self.mutated_globals:
             self.consts.pop(name, None)
 
